@@ -413,6 +413,8 @@ func registerCrypto(P *Program) {
 	P.reg("(*github.com/ethereum/go-ethereum/core/types.Transaction).Hash", func(it *Interp, a []Value) Value {
 		return it.mkByteArray(make([]byte, 32))
 	})
+	// JSON rendering of call arguments for gas estimation: content irrelevant to every claim
+	P.reg("encoding/json.Marshal", func(it *Interp, a []Value) Value { return Tuple{it.mkBytes([]byte("{}")), (*ErrV)(nil)} })
 	P.reg("crypto/sha256.Sum256", func(it *Interp, a []Value) Value {
 		h := sha256.Sum256(it.concBytes(a[0]))
 		return it.mkByteArray(h[:])
